@@ -535,29 +535,24 @@ class SelfPath(Path):
         return "@" + str(self.path)[1:]
 
     def evaluate(self, context: FilterContext) -> object:
-        if isinstance(context.current, str):  # TODO: refactor
-            if self.path.empty():
-                return context.current
-            return NodeList()
-        if not isinstance(context.current, (Sequence, Mapping)):
-            if self.path.empty():
-                return context.current
-            return NodeList()
-
-        return NodeList(self.path.finditer(context.current))
+        return NodeList(
+            self.path._resolve(  # noqa: SLF001
+                context.current,
+                root=context.root,
+                filter_context=context.extra_context,
+            )
+        )
 
     async def evaluate_async(self, context: FilterContext) -> object:
-        if isinstance(context.current, str):  # TODO: refactor
-            if self.path.empty():
-                return context.current
-            return NodeList()
-        if not isinstance(context.current, (Sequence, Mapping)):
-            if self.path.empty():
-                return context.current
-            return NodeList()
-
         return NodeList(
-            [match async for match in await self.path.finditer_async(context.current)]
+            [
+                match
+                async for match in self.path._resolve_async(  # noqa: SLF001
+                    context.current,
+                    root=context.root,
+                    filter_context=context.extra_context,
+                )
+            ]
         )
 
 
@@ -576,11 +571,24 @@ class RootPath(Path):
         return str(self.path)
 
     def evaluate(self, context: FilterContext) -> object:
-        return NodeList(self.path.finditer(context.root))
+        return NodeList(
+            self.path._resolve(  # noqa: SLF001
+                context.root,
+                root=context.root,
+                filter_context=context.extra_context,
+            )
+        )
 
     async def evaluate_async(self, context: FilterContext) -> object:
         return NodeList(
-            [match async for match in await self.path.finditer_async(context.root)]
+            [
+                match
+                async for match in self.path._resolve_async(  # noqa: SLF001
+                    context.root,
+                    root=context.root,
+                    filter_context=context.extra_context,
+                )
+            ]
         )
 
 
@@ -600,13 +608,23 @@ class FilterContextPath(Path):
         return "_" + path_repr[1:]
 
     def evaluate(self, context: FilterContext) -> object:
-        return NodeList(self.path.finditer(context.extra_context))
+        return NodeList(
+            self.path._resolve(  # noqa: SLF001
+                context.extra_context,
+                root=context.root,
+                filter_context=context.extra_context,
+            )
+        )
 
     async def evaluate_async(self, context: FilterContext) -> object:
         return NodeList(
             [
                 match
-                async for match in await self.path.finditer_async(context.extra_context)
+                async for match in self.path._resolve_async(  # noqa: SLF001
+                    context.extra_context,
+                    root=context.root,
+                    filter_context=context.extra_context,
+                )
             ]
         )
 
